@@ -499,7 +499,7 @@ func c42PartA(r *mc.Run) {
 			}
 		}
 	}
-	var delivered, dropNoPrefix, dropNoClass, dropNoSession, dropFrag, undecodableDropped, undecodableOK atomic.Int64
+	var delivered, dropNoPrefix, dropNoSession, dropFrag, undecodableDropped, undecodableOK atomic.Int64
 	var stop atomic.Bool
 	var undecMu sync.Mutex
 	undecByName := map[string]int{}
@@ -609,7 +609,6 @@ func c42PartA(r *mc.Run) {
 		dropNoSession.Add(nNoSess)
 		r.CaseBulk(nCases, nCases)
 	})
-	_ = dropNoClass
 	keys := make([]string, 0, len(pending))
 	for k := range pending {
 		keys = append(keys, k)
